@@ -20,6 +20,11 @@ def Pc.isLockWait : Pc α → Bool
   | .lockWait => true
   | _ => false
 
+/-- in the checkpoint before raising StopAsyncIteration -/
+def Pc.isYNone : Pc α → Bool
+  | .yielding none => true
+  | _ => false
+
 /-- 1 while the source's `__anext__` is running -/
 def pendingCall (owner : Option Nat) (pc : Nat → Pc α) : Nat :=
   match owner with
@@ -48,6 +53,13 @@ def pendingCall (owner : Option Nat) (pc : Nat → Pc α) : Nat :=
 @[simp] theorem lw_srcWait : (Pc.srcWait : Pc α).isLockWait = false := rfl
 @[simp] theorem lw_yielding (r : Option α) : (Pc.yielding r : Pc α).isLockWait = false := rfl
 
+@[simp] theorem yn_idle : (Pc.idle : Pc α).isYNone = false := rfl
+@[simp] theorem yn_lockWait : (Pc.lockWait : Pc α).isYNone = false := rfl
+@[simp] theorem yn_lockGranted : (Pc.lockGranted : Pc α).isYNone = false := rfl
+@[simp] theorem yn_srcWait : (Pc.srcWait : Pc α).isYNone = false := rfl
+@[simp] theorem yn_ynone : (Pc.yielding none : Pc α).isYNone = true := rfl
+@[simp] theorem yn_ysome (v : α) : (Pc.yielding (some v) : Pc α).isYNone = false := rfl
+
 theorem isIdle_iff {p : Pc α} : p.isIdle = true ↔ p = .idle := by cases p <;> simp [Pc.isIdle]
 theorem isLockWait_iff {p : Pc α} : p.isLockWait = true ↔ p = .lockWait := by
   cases p <;> simp [Pc.isLockWait]
@@ -74,7 +86,7 @@ structure Inv (xs : List α) (s : State α) : Prop where
     (s.links = s.consumed.map some ++ [none] ∧ s.src = [])
   cursor_le : ∀ i, s.cursor i ≤ s.consumed.length
   seen_ok : ∀ i, s.seen i ++ pend (s.pc i) = s.consumed.take (s.cursor i)
-  fin_ok : ∀ i, s.finished i = true →
+  fin_ok : ∀ i, (s.finished i = true ∨ (s.pc i).isYNone = true) →
     s.links = s.consumed.map some ++ [none] ∧ s.src = [] ∧ s.cursor i = s.consumed.length ∧
       pend (s.pc i) = []
   holder : ∀ i, (s.pc i).holdsLock = true ↔ s.owner = some i
